@@ -551,9 +551,13 @@ impl Property for C14 {
     fn id(&self) -> &'static str {
         "C14"
     }
-    fn generate(&self, rng: &mut Rng, _tier: Tier) -> Box<dyn Case> {
+    fn generate(&self, rng: &mut Rng, tier: Tier) -> Box<dyn Case> {
         let mut cfg = GenCfg::swarm(rng);
         cfg.size = *rng.pick(&[2usize, 4, 6, 10, 16]);
+        if tier == Tier::Thorough && rng.pct(35) {
+            // the thorough tier also explores larger programs
+            cfg.size *= 2;
+        }
         cfg.on = rng.pct(80);
         cfg.gosub = rng.pct(80);
         cfg.back_goto = rng.pct(70);
